@@ -630,7 +630,8 @@ def run_shards_isolated(w, binary, engine, prop, shards=NCPU, timeout=3600, stal
             pr = crash['progress']
             if not pr or pr[0] == -1:
                 raise Broken('%s shard %d died without progress info (rc=%s)\n%s' % (engine, i, crash['rc'], crash['log']))
-            q = subprocess.run([binary, '-engine', 'listtypes', '-shard', '%d/%d' % (i, shards)], cwd=w.dir, env=GOENV, stdout=subprocess.PIPE)
+            # engines that shard by case see every type; rapidp shards by type
+            q = subprocess.run([binary, '-engine', 'listtypes', '-shard', ('%d/%d' % (i, shards)) if engine == 'rapidp' else '0/1'], cwd=w.dir, env=GOENV, stdout=subprocess.PIPE)
             types = json.loads(q.stdout)['types']
             tname = types[pr[0]] if 0 <= pr[0] < len(types) else '?'
             case = pr[1]
